@@ -11,6 +11,7 @@ import (
 	"go/token"
 	"go/types"
 	"math"
+	"os"
 	"sort"
 	"strings"
 )
@@ -829,6 +830,11 @@ func ruleNoNewSharedPackageState(c *Ctx) {
 					}
 				case nm == "builtin.delete" && len(x.Args) == 2:
 					note(pkgVar(x.Args[0]), x.Pos())
+				case nm == "(*sync.Pool).Put" || nm == "(*sync.Pool).Get":
+					// a pool hands memory from one request to the next
+					if sel, ok := unparen(x.Fun).(*ast.SelectorExpr); ok {
+						note(pkgVar(sel.X), x.Pos())
+					}
 				}
 			}
 			return true
@@ -1250,4 +1256,307 @@ func ruleWriteBackBufferIsRead(c *Ctx) {
 		return true
 	})
 	c.Check(okOff, rule, s.Name, "offset-recorded-with-the-read", c.P.Pos(s.Body.Pos()), "readBuffer records which file range the buffer holds")
+}
+
+// R24.4 — no pointer to a range variable outlives its iteration: the module is compiled with the
+// per-loop range-variable semantics (go.mod `go` < 1.22), so `&v` of `for _, v := range xs` is the
+// same address in every iteration. Stored in a variable declared outside the loop, appended,
+// put in a composite literal or a map, it ends up denoting the LAST element (UpperBound/
+// LowerBound of the aggregation timeframes then return the last-listed timeframe, not the
+// largest/smallest). A per-iteration copy (`v := v`) or indexing (`&xs[i]`) is the fix.
+func ruleNoEscapingRangeVarAddress(c *Ctx) {
+	const rule = "R24.4"
+	// language version
+	old := true
+	for _, pkg := range c.P.Pkgs {
+		if pkg.Module != nil && pkg.Module.GoVersion != "" {
+			parts := strings.Split(pkg.Module.GoVersion, ".")
+			if len(parts) >= 2 {
+				var maj, min int
+				fmt.Sscanf(parts[0], "%d", &maj)
+				fmt.Sscanf(parts[1], "%d", &min)
+				old = maj == 1 && min < 22
+			}
+			break
+		}
+	}
+	if !old {
+		c.Hold(rule, "module", "range-variable-semantics", "", "the module's go directive is ≥ 1.22: every iteration has its own range variable")
+		return
+	}
+	nLoops, nAddr := 0, 0
+	for _, fn := range c.P.NonTestFuncs() {
+		ps := fn.PkgShort()
+		if fn.Decl.Body == nil || !(strings.HasPrefix(ps, "contrib/ondiskagg") || strings.HasPrefix(ps, "contrib/candler") || ps == "executor" || ps == "catalog" || ps == "planner" || ps == "frontend" || ps == "sqlparser" || ps == "replication" || strings.HasPrefix(ps, "utils") || strings.HasPrefix(ps, "uda") || strings.HasPrefix(ps, "plugins")) {
+			continue
+		}
+		info := fn.Pkg.TypesInfo
+		par := c.P.Parents(c.P.FileOf(fn.Pkg, fn.Decl.Pos()))
+		walkAll(fn.Decl.Body, func(m ast.Node) bool {
+			rs, ok := m.(*ast.RangeStmt)
+			if !ok || rs.Tok != token.DEFINE {
+				return true
+			}
+			nLoops++
+			vars := map[types.Object]bool{}
+			for _, e := range []ast.Expr{rs.Key, rs.Value} {
+				if e != nil {
+					if id, ok := e.(*ast.Ident); ok && id.Name != "_" {
+						if o := info.ObjectOf(id); o != nil {
+							vars[o] = true
+						}
+					}
+				}
+			}
+			walkAll(rs.Body, func(k ast.Node) bool {
+				u, ok := k.(*ast.UnaryExpr)
+				if !ok || u.Op != token.AND {
+					return true
+				}
+				id, ok := unparen(u.X).(*ast.Ident)
+				if !ok || !vars[info.ObjectOf(id)] {
+					return true
+				}
+				nAddr++
+				// how is the pointer used?
+				escapes, how := false, ""
+				var up ast.Node = u
+				p := par[up]
+				for {
+					if pe, ok := p.(*ast.ParenExpr); ok {
+						up, p = pe, par[pe]
+						continue
+					}
+					break
+				}
+				switch x := p.(type) {
+				case *ast.AssignStmt:
+					for i, r := range x.Rhs {
+						if unparen(r) != ast.Expr(u) || i >= len(x.Lhs) {
+							continue
+						}
+						switch l := unparen(x.Lhs[i]).(type) {
+						case *ast.Ident:
+							if o := info.ObjectOf(l); o != nil && (o.Pos() < rs.Body.Pos() || o.Pos() > rs.Body.End()) {
+								escapes, how = true, "assigned to `"+l.Name+"`, which is declared outside the loop"
+							}
+						default:
+							escapes, how = true, "stored in "+types.ExprString(x.Lhs[i])
+						}
+					}
+				case *ast.CallExpr:
+					if idf, ok := unparen(x.Fun).(*ast.Ident); ok && idf.Name == "append" {
+						escapes, how = true, "appended to a slice"
+					}
+				case *ast.CompositeLit, *ast.KeyValueExpr:
+					escapes, how = true, "placed in a composite literal"
+				case *ast.SendStmt:
+					escapes, how = true, "sent on a channel"
+				case *ast.GoStmt, *ast.DeferStmt:
+					escapes, how = true, "captured by a go/defer call"
+				}
+				if escapes {
+					c.Violate(rule, fn.Key, "range-variable-address-escapes:"+id.Name, c.P.Pos(u.Pos()),
+						"the address of the range variable `"+id.Name+"` is "+how+": with the module's language version every iteration reuses that one variable, so after the loop the pointer denotes the LAST element whatever was selected", nil)
+				}
+				return true
+			})
+			return true
+		})
+	}
+	c.Hold(rule, "server and plugin packages", "range-variable-addresses-examined", "", fmt.Sprintf("%d range loops, %d uses of &<range variable>; none is kept beyond its iteration", nLoops, nAddr))
+	c.Floor(rule, "server and plugin packages", "range loops examined", nLoops, 100)
+}
+
+// R23.6 — gap reports the pairs for every input that has at least two rows: in Gap.Accum a
+// return that bypasses both scans (threshold scan and z-score scan) is reachable only through the
+// "too few rows / cannot read the time column" guards. A shortcut such as "all intervals equal →
+// no gap" drops every pair of a regular series whose spacing exceeds the configured threshold.
+func ruleGapScanNotBypassed(c *Ctx) {
+	const rule = "R23.6"
+	s := c.S(rule, "(*uda/gap.Gap).Accum")
+	if s == nil {
+		return
+	}
+	info := s.Info
+	var fewRows func(e ast.Expr) bool
+	fewRows = func(e ast.Expr) bool {
+		e = unparen(e)
+		if b, ok := e.(*ast.BinaryExpr); ok {
+			switch b.Op {
+			case token.LOR:
+				return fewRows(b.X) && fewRows(b.Y)
+			case token.EQL, token.NEQ, token.LSS, token.LEQ:
+				for _, pair := range [][2]ast.Expr{{b.X, b.Y}, {b.Y, b.X}} {
+					x, y := unparen(pair[0]), unparen(pair[1])
+					if isNilIdent(info, y) {
+						return true // err != nil, epochs == nil
+					}
+					if cx, ok := x.(*ast.CallExpr); ok {
+						nm := ""
+						if id, ok := unparen(cx.Fun).(*ast.Ident); ok {
+							nm = id.Name
+						} else if sel, ok := unparen(cx.Fun).(*ast.SelectorExpr); ok {
+							nm = sel.Sel.Name
+						}
+						if nm == "len" || nm == "Len" {
+							if v, ok := constInt(info, y); ok && v <= 2 {
+								return true
+							}
+						}
+					}
+				}
+			}
+		}
+		return false
+	}
+	scan := func(sub, top ast.Node) bool {
+		cx, ok := sub.(*ast.CallExpr)
+		if !ok {
+			return false
+		}
+		nm := CalleeName(info, cx)
+		return strings.HasPrefix(nm, "uda/gap.bigGapIdxs") || strings.Contains(nm, "gap.bigGap")
+	}
+	r := s.Run(Query{Barrier: scan, ExitIsTarget: true, OnlyNilErrorReturns: false, WholeFacts: true,
+		Exempt: func(f []Fact) bool {
+			for _, x := range f {
+				if x.Whole && x.Val && fewRows(x.Expr) {
+					return true
+				}
+			}
+			return false
+		}})
+	c.Floor(rule, s.Name, "gap scans", r.BarrierSites, 2)
+	c.reportHits(rule, s, "result-only-after-a-scan", r,
+		"with two or more rows, Accum returns only after the threshold scan or the z-score scan ran",
+		"Accum can return without scanning the intervals although the input has two or more rows (every pair whose difference exceeds the threshold is missing from the result)")
+}
+
+// R17.6 — path prefixes are compared at a separator: in the catalog (and the code that deletes
+// below it) strings.HasPrefix on two path values needs a prefix operand that ends with the path
+// separator. "…/AAPL" is a string prefix of "…/AAPLW"; a prefix match without the separator
+// treats a sibling bucket as a child (its catalog entry is dropped, or its files are removed).
+func rulePathPrefixAtSeparator(c *Ctx) {
+	const rule = "R17.6"
+	n, bad := 0, 0
+	for _, fn := range c.P.NonTestFuncs() {
+		ps := fn.PkgShort()
+		if fn.Decl.Body == nil || !(ps == "catalog" || ps == "executor" || ps == "frontend" || ps == "planner") {
+			continue
+		}
+		info := fn.Pkg.TypesInfo
+		walkAll(fn.Decl.Body, func(m ast.Node) bool {
+			cx, ok := m.(*ast.CallExpr)
+			if !ok || CalleeName(info, cx) != "strings.HasPrefix" || len(cx.Args) != 2 {
+				return true
+			}
+			n++
+			pre := unparen(cx.Args[1])
+			if _, isConst := constString(info, pre); isConst {
+				return true // a literal marker, not a path
+			}
+			endsWithSep := false
+			if b, ok := pre.(*ast.BinaryExpr); ok && b.Op == token.ADD {
+				if v, ok := constString(info, b.Y); ok && (strings.HasSuffix(v, "/") || v == string(os.PathSeparator)) {
+					endsWithSep = true
+				}
+				if cxs, ok := unparen(b.Y).(*ast.CallExpr); ok && len(cxs.Args) == 1 && objKey(info, cxs.Args[0]) == "path/filepath.Separator" {
+					endsWithSep = true
+				}
+			}
+			if !endsWithSep {
+				bad++
+				c.Violate(rule, fn.Key, "path-prefix-without-separator", c.P.Pos(cx.Pos()),
+					"strings.HasPrefix("+types.ExprString(cx.Args[0])+", "+types.ExprString(cx.Args[1])+") compares paths without a trailing separator on the prefix: a sibling whose name merely starts with the same characters (AAPL / AAPLW, OHLC / OHLCV) is treated as lying below it", nil)
+			}
+			return true
+		})
+	}
+	if bad == 0 {
+		c.Hold(rule, "catalog, executor, frontend, planner", "no-separatorless-path-prefix-test", "", fmt.Sprintf("%d strings.HasPrefix call(s); none compares a run-time path prefix without a trailing separator", n))
+	}
+}
+
+// R20.4 — every select item is bound with its own alias: in the select-list loop of
+// VisitQuerySpecificationParse a value assigned to the alias of an item is defined inside that
+// iteration (from the item's own parse context). A variable that lives across iterations and is
+// only set when an item has an alias leaks the previous item's alias onto the un-aliased items that
+// follow (their columns are renamed onto it and disappear).
+func ruleAliasPerSelectItem(c *Ctx) {
+	const rule = "R20.4"
+	s := c.S(rule, "(*sqlparser.ExecutableStatement).VisitQuerySpecificationParse")
+	if s == nil {
+		return
+	}
+	info := s.Info
+	par := c.P.Parents(c.P.FileOf(s.Pkg, s.Body.Pos()))
+	n := 0
+	check := func(at ast.Node, val ast.Expr) {
+		// enclosing loop
+		var loop *loopInfo
+		for p := par[at]; p != nil; p = par[p] {
+			if li := asLoop(info, p); li != nil {
+				loop = li
+				break
+			}
+			if _, ok := p.(*ast.FuncDecl); ok {
+				break
+			}
+		}
+		if loop == nil {
+			return
+		}
+		n++
+		okAll := true
+		culprit := ""
+		walkAll(val, func(k ast.Node) bool {
+			id, ok := k.(*ast.Ident)
+			if !ok {
+				return true
+			}
+			v, isVar := info.ObjectOf(id).(*types.Var)
+			if !isVar || v.IsField() || v.Pkg() == nil || v.Parent() == v.Pkg().Scope() {
+				return true
+			}
+			inLoop := v.Pos() >= loop.Node.Pos() && v.Pos() <= loop.Node.End()
+			if !inLoop && !isParam(s, v) && info.ObjectOf(id) != identObj(info, s.recvIdent()) {
+				okAll, culprit = false, id.Name
+			}
+			return true
+		})
+		c.Check(okAll, rule, s.Name, "alias-defined-in-own-iteration", c.P.Pos(at.Pos()),
+			"the alias given to a select item is computed inside the item's own loop iteration"+map[bool]string{true: "", false: " (`" + culprit + "` is declared outside the loop and carries the previous item's alias over)"}[okAll])
+	}
+	s.walk(func(m ast.Node) bool {
+		switch x := m.(type) {
+		case *ast.KeyValueExpr:
+			if id, ok := x.Key.(*ast.Ident); ok && id.Name == "Alias" {
+				if v, ok := info.ObjectOf(id).(*types.Var); ok && v.IsField() {
+					check(x, x.Value)
+				}
+			}
+		case *ast.AssignStmt:
+			for i, l := range x.Lhs {
+				if strings.HasSuffix(fieldKey(info, l), ".Alias") && i < len(x.Rhs) {
+					check(x, x.Rhs[i])
+				}
+			}
+		case *ast.CallExpr:
+			// NewAliasedIdentifier(primary, alias)-style constructors
+			if strings.Contains(CalleeName(info, x), "AliasedIdentifier") && len(x.Args) >= 2 {
+				check(x, x.Args[len(x.Args)-1])
+			}
+		}
+		return true
+	})
+	c.Floor(rule, s.Name, "alias bindings in the select-list loop", n, 1)
+}
+
+// recvIdent: the receiver identifier of the scope's function (nil for plain functions).
+func (s *Scope) recvIdent() ast.Expr {
+	if s.Fn == nil || s.Fn.Decl.Recv == nil || len(s.Fn.Decl.Recv.List) == 0 || len(s.Fn.Decl.Recv.List[0].Names) == 0 {
+		return &ast.Ident{Name: "_"}
+	}
+	return s.Fn.Decl.Recv.List[0].Names[0]
 }
